@@ -910,7 +910,24 @@ def _stores_before(stmts, x: str, res: str) -> bool:
                 in_loop |= {id(n) for n in ast.walk(lp)}
     if any(id(n) in in_loop for n in xs):
         return False
-    return max(order[id(n)] for n in xs) < min(order[id(n)] for n in rs)
+    if max(order[id(n)] for n in xs) < min(order[id(n)] for n in rs):
+        return True
+    # path-wise: no assignment of x can run after an assignment of res (they may well stand in different arms of an `if`)
+    try:
+        from .cfg import CFG
+        fake = ast.FunctionDef(name="_f", args=ast.arguments(posonlyargs=[], args=[], kwonlyargs=[], kw_defaults=[], defaults=[]), body=list(stmts),
+                               decorator_list=[], returns=None, type_comment=None)
+        fake.type_params = []
+        ast.fix_missing_locations(fake)
+        g = CFG(fake)
+    except Exception:
+        return False
+
+    def nodes_storing(name):
+        return [n.id for n in g.nodes if n.ast is not None and n.kind in ("stmt", "for") and any(
+            isinstance(y, ast.Name) and y.id == name and isinstance(y.ctx, (ast.Store, ast.Del)) for y in (ast.walk(n.ast) if n.kind == "stmt" else ast.walk(n.ast.target)))]
+    xn, rn = nodes_storing(x), nodes_storing(res)
+    return not any(g.reaches(r_, x_, exc=True) for r_ in rn for x_ in xn)
 
 
 def _first_call_in_value(val, helpers, cls, caller):
